@@ -323,19 +323,28 @@ pub fn step<E: Elem>(v: &mut dyn VecCore<E>, model: &mut Vec<u32>, ctx: &mut VCt
             )
         }
         8 => {
-            ctx.begin("dedup_by val/2".into());
+            // same_bucket(current, last retained): an equivalence, a non-transitive relation, an asymmetric one
+            let kind = ctx.rng.below(4);
+            let same = move |a: u32, b: u32| match kind {
+                0 => a / 2 == b / 2,
+                1 => a.abs_diff(b) <= 1,
+                2 => a > b,
+                _ => a <= b.wrapping_add(2),
+            };
+            ctx.begin(format!("dedup_by {}", ["val/2 equal", "|a-b|<=1", "a>b", "a<=b+2"][kind]));
             ctx.ev("dedup");
+            ctx.rep.count(if kind == 0 { "dedup_by_equivalence" } else { "dedup_by_non_equivalence" });
             let f = v.filter().unwrap();
             (
                 real_do(|| {
                     f.dedup_by(&mut |a, b| {
                         tr::burn();
-                        a.val() / 2 == b.val() / 2
+                        same(a.val(), b.val())
                     });
                     Ok(vec![])
                 }),
                 model_do(|| {
-                    model.dedup_by(|a, b| *a / 2 == *b / 2);
+                    model.dedup_by(|a, b| same(*a, *b));
                     vec![]
                 }),
             )
